@@ -51,11 +51,11 @@ def _pure_steps(case):
     return out
 
 
-def _pure_worker(case):
+def _pure_worker(case, watchdog=8):
     import signal
     from . import impl
     old = signal.signal(signal.SIGALRM, impl._alarm)
-    signal.setitimer(signal.ITIMER_REAL, 8, 0.2)
+    signal.setitimer(signal.ITIMER_REAL, watchdog, 0.2)
     try:
         return ("ok", _pure_steps(case))
     except impl.Hang:
@@ -188,6 +188,8 @@ def c05_pure_tie(tier, seed, n=50):
     for prof in PROFILES:
         cases += [gen.gen_case(seed, prof, 14000 + i) for i in range(n * scale)]
     ri = core.pool().map(_pure_worker, cases, chunksize=4)
+    # a watchdog cut on a loaded machine is not a verdict: once more, alone, with a generous watchdog
+    ri = [(_pure_worker(c, 40) if st == "hang" else (st, o)) for c, (st, o) in zip(cases, ri)]
     rm = []
     for i in range(0, len(cases), 200):
         rm.extend(run_model_pure(cases[i:i + 200]))
